@@ -29,6 +29,9 @@ def expand_ref(ref):
         mean[0] = 3.0
     elif fam == 'zero_gene':
         mean[:, 0] = 0.0
+    elif fam == 'empty_leaf' and nl >= 2:
+        # a leaf of the taxonomy without any reference cell: its row of the statistics file is all zero
+        n_cells[int(ref['seed']) % nl] = 0
     sums = mean * n_cells[:, None]
     return n_cells.astype(np.int64), sums
 
@@ -176,7 +179,7 @@ def retype_index_arrays(path, dtype, layer=None):
 def write_query(path, q):
     x = expand_query(q)
     write_h5ad(path, x, q['cells'], q['genes'], enc=q.get('enc', 'csr'),
-               layer=q.get('layer'), rechunk=q.get('rechunk'),
+               layer=q.get('layer'), rechunk=q.get('rechunk'), uns=q.get('uns'),
                obs_index_name=q.get('obs_index_name'), var_index_name=q.get('var_index_name'))
     if q.get('idx_dtype') and q.get('enc', 'csr') != 'dense':
         retype_index_arrays(path, q['idx_dtype'], q.get('layer'))
